@@ -593,6 +593,31 @@ theorem permute_then_contiguous {α : Type} (x : T α) (p i : List Nat) (hp : is
   rw [contiguous_of_view _ _ (by rw [hshape]; exact hi),
     view_permute _ _ _ (by simpa [View.ofT, h2] using isPerm_perm hp) hlen, view_of_contiguous _ _ hx]
 
+/-- **`expand` views = the handled function `expand`, under the model's own acceptance test** (pass 11, the analogue of `view_permute_step`):
+whenever `Step.expand s'` is accepted on the view's lshape, the stride-0 view has the step's output lshape and addresses at every index
+of full rank the item the step's index map (`proj`) names -/
+theorem view_expand_step {α : Type} (v : View α) (s' s'' : Shape) (g : List Nat → List Nat)
+    (h : Step.apply v.shape (.expand s') = some (s'', g)) (i : List Nat) (hi : i.length = s'.length) :
+    (v.expand s').shape = s'' ∧ (v.expand s').get i = v.get (g i) := by
+  simp only [Step.apply] at h
+  split at h
+  · simp only [Option.some.injEq, Prod.mk.injEq] at h
+    refine ⟨by simpa [View.expand] using h.1, ?_⟩
+    rw [← h.2]
+    exact view_expand v s' i hi
+  · simp at h
+
+/-- the chain the harness exercises with its `expand` layout (and what `broadcast_inputs` does to each operand): an expanded view of a
+contiguous tensor, made contiguous for the op, holds at every valid index `i` of the target lshape the item of `x` at the broadcasting
+projection `proj x.shape i` — which is a valid index of `x` (no hypothesis besides torch's own acceptance of the expand) -/
+theorem expand_then_contiguous {α : Type} (x : T α) (s' : Shape) (hb : broadcastShapes x.shape s' = some s') (i : List Nat) (hi : inb s' i) :
+    inb x.shape (proj x.shape i) ∧ ((View.ofT x).expand s').contiguous.get i = x.get (proj x.shape i) := by
+  have hx := (proj_valid hb i hi).1
+  refine ⟨hx, ?_⟩
+  have hshape : ((View.ofT x).expand s').shape = s' := rfl
+  rw [contiguous_of_view _ _ (by rw [hshape]; exact hi), view_expand _ _ _ (inb_length hi)]
+  exact view_of_contiguous x _ hx
+
 /-! non-vacuity: `x` of lshape (4, 3) with items numbered row-major; `x[1::2]` at (1, 2) is item (3, 2) = 11; `x[:, 1]` at (2) is item
 (2, 1) = 7; a (1, 3) tensor expanded to (2, 2, 3) at (1, 1, 2) is item (0, 2) = 2 -/
 example : (((View.ofT (⟨[4, 3], id⟩ : T Nat)).slice 0 1 2 2).contiguous.get [1, 2]) = 11 := by decide
@@ -603,6 +628,9 @@ example : (((View.ofT (⟨[1, 3], id⟩ : T Nat)).expand [2, 2, 3]).contiguous.g
 the hypotheses of `view_permute` / `permute_then_contiguous` hold for them -/
 example : (((View.ofT (⟨[4, 3], id⟩ : T Nat)).permute [1, 0]).contiguous.get [2, 1]) = 5 := by decide
 example : (((View.ofT (⟨[2, 3, 4], id⟩ : T Nat)).permute [1, 2, 0]).contiguous.get [2, 3, 1]) = 23 := by decide
+/-! pass 11: the (1, 3) tensor expanded to (2, 2, 3) is accepted by `Step.expand` and by `broadcastShapes`; index (1, 1, 2) is valid -/
+example : broadcastShapes [1, 3] [2, 2, 3] = some [2, 2, 3] ∧ (Step.apply [1, 3] (.expand [2, 2, 3])).isSome = true := by decide
+example : inb [2, 2, 3] [1, 1, 2] ∧ proj [1, 3] [1, 1, 2] = [0, 2] := by simp [inb, proj, projEq]
 example : [1, 2, 0].Perm (List.range 3) ∧ [1, 0].Perm (List.range 2) ∧ isPerm [1, 2, 0] 3 = true ∧ unpermute [1, 2, 0] [2, 3, 1] = [1, 2, 3] := by decide
 
 /-! ## `retain_ltype` / `func.jacrev`
